@@ -34,10 +34,10 @@ META = {
                     "statements (R), (E1), (E2) for an arbitrary compiled-feasible vector, realisation, probability vector "
                     "and scaled conditional means.  The step from (E1)+(E2) to 'safe for every distribution' is the "
                     "three-line lemma of DESIGN.md 3.1 (trusted)."),
-    "bounds": "2 scenarios, 1-2 random variables, decisions of size <= 2, <= 2 events, supports: boxes / intervals per scenario; expectation sets: intervals on E(z) per event; probability sets: simplex, simplex with upper bounds",
+    "bounds": "2-3 scenarios (default and integer labels), 1-2 random variables, decisions of size <= 2, <= 2 events (disjoint, overlapping, selected by label), supports: intervals per scenario; expectation sets: intervals on E(z) per event; probability sets: simplex, simplex with upper bounds; an E-constraint with its own ambiguity set; thorough tier: two random variables and a type-1 Wasserstein ball (auxiliary random variable, abs in the supports)",
     "trusted_base": ["z3/cvc5 (NRA)", "the safety lemma of DESIGN.md 3.1 (law of total expectation + convexity of the expectation sets)",
                      "the external solver returns a point feasible for the compiled program"],
-    "assumptions": ["Wasserstein-type lifted sets, KL / norm probability sets and conic expectation sets are covered only through C08 (their dual standard forms) and not end-to-end here"],
+    "assumptions": ["KL / norm probability sets and conic expectation sets are covered only through C08 (their dual standard forms) and not end-to-end here; Wasserstein-type sets only in the thorough tier"],
 }
 
 
@@ -104,11 +104,40 @@ def build(c, variant):
     m = dro.Model(labels if labels else S)
     x = m.dvar(2)
     y = m.dvar()
-    z = m.rvar(1 if variant.get("nz", 1) == 1 else 2)
-    nz = z.size if hasattr(z, "size") else 1
-    fs = m.ambiguity()
-    w.support = {}
-    for s in range(S):
+    w.support_fn = None
+    w.lifted_fn = None
+    if variant.get("wasserstein"):
+        # type-1 Wasserstein ball around the empirical points zhat_s: auxiliary random variable u with |z - zhat_s| <= u on
+        # the support of scenario s and E(u) <= theta over all scenarios
+        z = m.rvar()
+        u = m.rvar()
+        nz = 2
+        fs = m.ambiguity()
+        umax = _pos(c, "umax")
+        sup = {}
+        for s in range(S):
+            lo, hi, zh = c.fresh_real(f"lo{s}_"), c.fresh_real(f"hi{s}_"), c.fresh_real(f"zh{s}_")
+            c.assume(lo < zh)
+            c.assume(zh < hi)
+            for v in (lo, hi, zh):
+                c.assume(v != 0)
+            fs[s].suppset(z >= lo, z <= hi, abs(z - zh) <= u, u <= umax)
+            sup[s] = (lo, hi, zh)
+        theta = _pos(c, "theta")
+        fs.exptset(rsome.E(u) <= theta)
+        w.support = sup
+        w.events = [([0, 1], None, None)]
+        w.support_fn = lambda s, Z: p_and(p_le(sup[s][0], Z[0]), p_le(Z[0], sup[s][1]), p_le(Z[0] - sup[s][2], Z[1]),
+                                          p_le(sup[s][2] - Z[0], Z[1]), p_le(Z[1], umax))
+        w.lifted_fn = lambda k, pk, MUk: [p_le(MUk[1], pk * theta)]
+        S_range = []
+    else:
+        z = m.rvar(1 if variant.get("nz", 1) == 1 else 2)
+        nz = z.size if hasattr(z, "size") else 1
+        fs = m.ambiguity()
+        w.support = {}
+        S_range = range(S)
+    for s in S_range:
         lo, hi = c.fresh_real(f"lo{s}_"), c.fresh_real(f"hi{s}_")
         c.assume(lo < hi)
         if s == 1:
@@ -116,7 +145,8 @@ def build(c, variant):
             c.assume(hi != 0)
         (fs.loc[labels[s]] if labels else fs[s]).suppset(z >= lo, z <= hi)
         w.support[s] = (lo, hi)
-    w.events = []
+    if not variant.get("wasserstein"):
+        w.events = []
     if variant.get("expt") == "all":
         el, eh = c.fresh_real("el"), c.fresh_real("eh")
         c.assume(el < eh)
@@ -220,6 +250,8 @@ def build(c, variant):
 
 
 def in_support(w, s, Z, own=False):
+    if w.support_fn is not None and not own:
+        return w.support_fn(s, Z)
     lo, hi = (w.own["support"] if own else w.support)[s]
     return p_and(*[p_and(p_le(lo, zz), p_le(zz, hi)) for zz in Z])
 
@@ -356,6 +388,9 @@ def run_variant(vname):
                 lifted += [p_le(P[s], pub) for s in range(w.S)]
             for k, (members, el, eh) in enumerate(events):
                 pk = sum((P[s] for s in members), 0.0)
+                if w.lifted_fn is not None and not _own:
+                    lifted += w.lifted_fn(k, pk, MUk[k])
+                    continue
                 for j in range(w.nz):
                     lifted += [p_le(pk * el, MUk[k][j]), p_le(MUk[k][j], pk * eh)]
             val = sum((X[alpha.first + s] * P[s] for s in range(w.S)), 0.0)
@@ -382,6 +417,9 @@ def run_variant(vname):
 
 
 THOROUGH_VARIANTS = {
+    # type-1 Wasserstein ambiguity (auxiliary random variable, abs in the supports, E(u) <= theta): about 50 s each
+    "static,E-affine,wasserstein": dict(obj="E-affine", wasserstein=True),
+    "event,E-maxof,wasserstein": dict(obj="E-maxof", wasserstein=True, adapt="event"),
     "static,E-affine,expt-all,nz=2": dict(obj="E-affine", expt="all", nz=2),
     "event,E-maxof,expt-per-scenario,nz=2": dict(obj="E-maxof", expt="per-scenario", adapt="event", nz=2),
     "static,E-affine,expt-overlap,prob-ub,nz=2": dict(obj="E-affine", expt="overlap", prob="ub", nz=2),
